@@ -316,13 +316,14 @@ class C07(PropBase):
         pool = [0, 1, 4, 1 << 31, U32]
         esps = [0, 4, 7, 8, ESP, M32 - 4]
         progs = ["$eip .raSearch ^ = $esp .raSearch 4 + =", "$T0 .cbParams .cbSavedRegs + .cbLocals + = $eip $T0 =",
-                 "$eip $ebp 4 @ ^ ="]
+                 "$eip $ebp 4 @ ^ =", "$eip .raSearch = $esp .raSearchStart = $T0 $ebp 4 @ =",
+                 "$eip .raSearchStart = $esp .raSearch = $edi .cbCalleeParams ="]
         for (pa, sv, lo) in itertools.product(pool, repeat=3):
             for gcps in [0, 4, U32]:
                 for esp in esps:
                     mb = max(0, esp - 8)
                     regs = "esp=%d,ebp=%d,ebx=3,eip=%d" % (esp, (esp + 8) & U32, 0x40001000)
-                    pr = progs[(pa + sv + lo + gcps + esp) % 3]
+                    pr = progs[(pa // 3 + sv + lo // 5 + gcps + esp) % 5]
                     addA(100, gcps, True, regs, mb, memA, [W("4", 100, 16, pa, sv, lo, "1", pr)])
                     abp = "1" if (pa + sv + esp) % 2 else "0"
                     hasgc = (lo + gcps + esp) % 3 == 0
@@ -337,11 +338,37 @@ class C07(PropBase):
                                  "esp=%d,ebp=55,ebx=4294967296,eip=5" % (ESP + 4)):
                         addA(100, gcps, hasgc, regs, ESP, memA, [W("0", 100, 16, 8, sv, lo, "0", abp)])
                         dist["size_field_cases"] += 1
+        # FPO cross product: allocates_base_pointer x has-grand-callee x (word at esp+frame_size == / != callee eip) x
+        # (every read readable / image cut short / image starting at esp) x small size fields x esp pool.  Every
+        # 32-bit word of the image is distinct, so each branch's reads are distinguishable in the answer.
+        def words(base, n, mark=None):
+            b = bytearray()
+            for j in range(n):
+                b += ((0x40002000 + 0x10 * j) & U32).to_bytes(4, "little")
+            return bytes(b)
+        for esp in (ESP, 64, M32 - 64):
+            for sv, lo, gcps in itertools.product([0, 4, 8, 12], [0, 4, 8], [0, 4, 8]):
+                fs = sv + lo + gcps
+                for below, nwords in ((16, 24), (0, 24), (16, (16 + fs) // 4 + 1), (8, (8 + fs) // 4 + 2)):
+                    mb = esp - below
+                    img = words(mb, nwords)
+                    w_at = esp + fs - mb
+                    slot_word = int.from_bytes(img[w_at:w_at + 4], "little") if w_at + 4 <= len(img) else 5
+                    for eq in (True, False):
+                        ceip = slot_word if eq else 77
+                        for abp in ("0", "1"):
+                            for hasgc in (False, True):
+                                for extra in ("ebp=55,ebx=9", "ebp=55", "ebx=9"):
+                                    if extra != "ebp=55,ebx=9" and not (below == 16 and nwords == 24):
+                                        continue
+                                    regs = "esp=%d,%s,eip=%d" % (esp, extra, ceip)
+                                    addA(100, gcps, hasgc, regs, mb, img.hex(), [W("0", 100, 16, 8, sv, lo, "0", abp)])
+                                    dist["fpo_cross"] = dist.get("fpo_cross", 0) + 1
         # random longer programs
         stmts = ["$T0 $ebp =", "$eip $T0 4 + ^ =", "$ebp $T0 ^ =", "$esp $T0 8 + =", "$T0 .raSearchStart =", "$eip $T0 ^ =",
                  "$esp $T0 4 + =", "$ebx $T2 4 - ^ =", "$T2 $esp .cbSavedRegs + =", "$esi .undef =", "$edi 7 =", "$ebp .undef =",
                  "$T0 $esp 16 @ =", "$eip .undef =", "$T1 $T0 $T0 * =", "$eax 5 =", "$esp $esp 4294967295 + =", "$edi -2147483648 =",
-                 "$T0 2147483648 =", "T0 5 =", "$T0 =4", "$eip =$T0", "= =", "$T3 1 0 / =", "$T3 7 0 % =", "$T3 7 3 @ =", "$esi $nosuch ="]
+                 "$T0 2147483648 =", "T0 5 =", "$esi .raSearch =", "$edi .raSearchStart =", "$esi .raSearchStart .raSearch - =", "$T0 =4", "$eip =$T0", "= =", "$T3 1 0 / =", "$T3 7 0 % =", "$T3 7 3 @ =", "$esi $nosuch ="]
         nrand = 5000 if tier == "quick" else 50000
         for _ in range(nrand):
             n = rng.range(1, 7)
@@ -390,6 +417,13 @@ class C07(PropBase):
             for abp in ("0", "1"):
                 for valid in valids:
                     cases.append("|".join(["B", ctxs[0], valid, str(ESP), stackB, W("0", 100, 16, 8, sv, lo, "0", abp)]))
+                    dist["by_kind"]["B"] += 1
+                    dist["real_walker"] += 1
+                    # image based below esp, distinct words, the word at esp+frame_size holds the callee's own eip
+                    img = bytearray(words(ESP - 16, 24))
+                    off = 16 + sv + lo
+                    img[off:off + 4] = (MODBASE + 100).to_bytes(4, "little")
+                    cases.append("|".join(["B", ctxs[0], valid, str(ESP - 16), bytes(img).hex(), W("0", 100, 16, 8, sv, lo, "0", abp)]))
                     dist["by_kind"]["B"] += 1
                     dist["real_walker"] += 1
         return cases, dist, True
